@@ -83,6 +83,40 @@ pub fn shape_sequences() -> Vec<Vec<Rpc>> {
             }
         }
     }
+    // bulk streams mixing valid and REJECTED items (wrong dimension): every list of length <= 3
+    // over ids {1,2,3} x {valid, rejected}. A rejected new id must give its reserved slot back
+    // even when the same batch also overwrites a document or repeats an id.
+    let mut mixed: Vec<Vec<(u64, bool)>> = Vec::new();
+    let atoms: Vec<(u64, bool)> = [1u64, 2, 3].iter().flat_map(|&i| [(i, true), (i, false)]).collect();
+    for &a in &atoms {
+        mixed.push(vec![a]);
+        for &b in &atoms {
+            mixed.push(vec![a, b]);
+            for &c in &atoms {
+                mixed.push(vec![a, b, c]);
+            }
+        }
+    }
+    for pop in &pops {
+        for l in &mixed {
+            if l.iter().all(|x| x.1) {
+                continue; // all-valid lists are covered above
+            }
+            for kind in 1..3 {
+                let mut seq: Vec<Rpc> = pop.iter().map(|&i| Rpc::Insert { t: 0, item: it(i, [i as f32, 0.5]) }).collect();
+                let items: Vec<Item> = l
+                    .iter()
+                    .enumerate()
+                    .map(|(j, &(i, valid))| if valid { it(i, [i as f32 + 10.0, j as f32]) } else { Item { id: i, v: vec![1.0, 2.0, 3.0], m: vec![], ns: "".into() } })
+                    .collect();
+                seq.push(if kind == 1 { Rpc::BulkInsert { t: 0, items } } else { Rpc::BulkLoad { t: 0, items } });
+                for i in [1u64, 2, 3, 4] {
+                    seq.push(Rpc::Insert { t: 0, item: it(i, [i as f32, 7.0]) });
+                }
+                out.push(seq);
+            }
+        }
+    }
     out
 }
 
@@ -373,7 +407,7 @@ pub fn run(tier: &str, replay: Option<&str>) -> i32 {
     ev.set("traces_validated_against_impl", tot["sequences"] + tot["conc_executions"]);
     ev.set("evaluations", tot["sequences"] + tot["conc_executions"]);
     ev.set("distinct_nontrivial", tot["at_limit"]);
-    ev.set("rule", format!("sequential: all {n}^{depth} sequences of one tenant (max_vectors = {LIMIT}, local ids 1-3) over Insert new / duplicate / NaN / wrong dimension, Delete present / absent, BatchDelete with duplicate ids and by filter, BulkInsert with a rejected item and across the limit, BulkLoadHnsw with an in-batch duplicate and over the limit, UpdateMetadata, FlushHotTier, Restart (persistent engine + the start-up recount); after EVERY step the server's counter (read through the child module) must equal the live documents carrying the tenant index, never exceed the limit, and a valid Insert of a new id is RESOURCE_EXHAUSTED only at the limit. request shapes: every id list of length <= 3 over {{1,2,3,absent}} (all adjacent / non-adjacent repeat patterns) as BatchDelete(ids), BulkInsert and BulkLoadHnsw from each of the 8 populations of <= {SHAPE_LIMIT} documents (max_vectors = {SHAPE_LIMIT} there, so that a counter driven below the live count is not masked by saturation at zero), followed by a refill Insert 1,2,3,4, same per-step oracle. concurrent: 25 programs of two (one of three) RPCs on the same id (insert||delete, overwrite||delete, insert||insert, delete||delete, insert||batch delete by ids/filter, inserts at the limit) from three setups, every schedule with <= 1 (quick) / 2 (thorough) preemptions under ksched; after join counter == live <= limit. non-trivial = steps executed with the tenant exactly at its limit"));
+    ev.set("rule", format!("sequential: all {n}^{depth} sequences of one tenant (max_vectors = {LIMIT}, local ids 1-3) over Insert new / duplicate / NaN / wrong dimension, Delete present / absent, BatchDelete with duplicate ids and by filter, BulkInsert with a rejected item and across the limit, BulkLoadHnsw with an in-batch duplicate and over the limit, UpdateMetadata, FlushHotTier, Restart (persistent engine + the start-up recount); after EVERY step the server's counter (read through the child module) must equal the live documents carrying the tenant index, never exceed the limit, and a valid Insert of a new id is RESOURCE_EXHAUSTED only at the limit. request shapes: every id list of length <= 3 over {{1,2,3,absent}} (all adjacent / non-adjacent repeat patterns) as BatchDelete(ids), BulkInsert and BulkLoadHnsw from each of the 8 populations of <= {SHAPE_LIMIT} documents (max_vectors = {SHAPE_LIMIT} there, so that a counter driven below the live count is not masked by saturation at zero), followed by a refill Insert 1,2,3,4, same per-step oracle; and every bulk stream of length <= 3 over ids {{1,2,3}} x {{valid, rejected (wrong dimension)}} with at least one rejected item, as BulkInsert and BulkLoadHnsw, from the same populations. concurrent: 25 programs of two (one of three) RPCs on the same id (insert||delete, overwrite||delete, insert||insert, delete||delete, insert||batch delete by ids/filter, inserts at the limit) from three setups, every schedule with <= 1 (quick) / 2 (thorough) preemptions under ksched; after join counter == live <= limit. non-trivial = steps executed with the tenant exactly at its limit"));
     ev.set("samples", json!([alphabet()[9], alphabet()[11], {"concurrent": ["Insert(1)", "Delete(1)"], "setup": ["Insert(1)"]}]));
     ev.set("exhaustive", true);
     ev.set("sequences", tot["sequences"]);
